@@ -86,6 +86,8 @@ class Cfg:
                 ops.append(("r", 4, a, 0))
                 ops.append(("w", 4, a, 0))
                 ops.append(("u", 4, a, 0))
+        if alphabet == "control":
+            ops.append(("stats", 4, base, 0))  # the statistics are asked for (an observer as an operation)
         if alphabet in ("word", "control", "wordz"):
             ops.append(("reset", 4, base, 0))  # what load_program does to the memory system: everything is cleared
         if variant == "mixed":
@@ -179,6 +181,16 @@ class World:
             self.ref_valid = True
             if checks is not None and self.pm.cycles != cyc0:
                 checks.append(("penalty", f"reset() advanced the cycle counter by {self.pm.cycles - cyc0}"))
+            return "ok"
+        if kind == "stats":
+            try:
+                st = mem.get_cache_stats()
+                got = (int(st["accesses"]), int(st["hits"]))
+            except Exception as e:  # noqa
+                got = f"{type(e).__name__}: {e}"
+            if checks is not None and got != (self.ref.accesses, self.ref.hits):
+                checks.append(("accesses" if not isinstance(got, tuple) or got[0] != self.ref.accesses else "hits",
+                               f"get_cache_stats() (operation of the history) answers (accesses, hits) = {got}, reference {(self.ref.accesses, self.ref.hits)}"))
             return "ok"
         if kind == "table":
             tmp = [] if checks is None else checks
@@ -372,15 +384,20 @@ class World:
         Normalisation: counters / metrics dropped, flat dict cells sorted by address and zero cells dropped.
         Aliasing or insertion-order differences can only make the key finer (sound; costs time)."""
         mem = self.mem
+        saved = []
         for obj in (mem, getattr(mem, "memory", None)):
             if obj is None:
                 continue
             for name, val in list(vars(obj).items()):
                 if name in SKIP:
+                    saved.append((obj, name, val))
                     setattr(obj, name, None)
                 elif isinstance(val, dict):
+                    saved.append((obj, name, val))
                     setattr(obj, name, {k: v for k, v in sorted(val.items()) if v != 0})
         blob = pickle.dumps(mem, protocol=5)
+        for obj, name, val in saved:  # the object stays usable: the oracle's own observer calls come AFTER the key is taken
+            setattr(obj, name, val)
         # the counters themselves are not part of the key (their deltas are checked on every transition), but whether any
         # counted access / any hit has happened yet is: code may (wrongly) branch on "never accessed"
         return digest((blob, tuple(sorted((a, v) for a, v in self.flat.items() if v)),
@@ -402,6 +419,8 @@ def opname(op):
         return "reset()"
     if kind == "table":
         return "get_data_memory_entries()"
+    if kind == "stats":
+        return "get_cache_stats()"
     alias = op[4] if len(op) > 4 else 0
     w = {1: "byte", 2: "halfword", 4: "word"}[width]
     at = f"{a:#x}" + ("" if not alias else (" - 2^32" if alias < 0 else " + 2^32"))
@@ -423,6 +442,9 @@ def run_history(cfg, hist, want, last_checks=True):
     checks = []
     if hist:
         status = w.apply(cfg.ops[hist[-1]], checks)
+    # the state key is taken before the oracle looks at tables / cache views: an observer that leaves something behind
+    # must not make every state look "already observed" (observers are operations of their own where that matters)
+    w.state_key = w.key()
     if "policy" in want:
         w.check_policy(checks)
     if "accounting" in want:
@@ -458,7 +480,7 @@ def expand(shard):
             if status in ("rejected", "accepted-crossing"):
                 p.counters["rejected" if status == "rejected" else "crossing-accepted"] += 1
                 terminal = terminal_on_reject
-            key = w.key()
+            key = w.state_key
             if "transparency" in want:
                 w.check_readback(checks)
             for e in w.ref.events:
@@ -478,9 +500,10 @@ def explore(ctx, cfg: Cfg, want, maxdepth, state_cap=300000, deadline=None):
     t0 = time.time()
     w0 = World(cfg)
     init_checks = []
+    key0 = w0.key()
     if "coherence" in want:
         w0.check_coherence(init_checks)
-    res = bfs(expand, (cfg.args(), tuple(want), ctx.prop), [w0.key()], [()], maxdepth, state_cap,
+    res = bfs(expand, (cfg.args(), tuple(want), ctx.prop), [key0], [()], maxdepth, state_cap,
               label=f"[{ctx.prop}] {cfg.name()}", deadline=deadline, verbose=False)
     part = res.part
     for f, d in init_checks:
